@@ -298,8 +298,8 @@ def run_case(case, ctx):
 
 def requirements(stats, tier):
     need = []
-    if stats.get("files_loaded_through_Atoms_load_with_options") < (8 if tier == "quick" else 500):
-        need.append("files loaded through Atoms.load with reader options: %d" % stats.get("files_loaded_through_Atoms_load_with_options"))
+    if stats.get("file.routes_compared") < (60 if tier == "quick" else 5000):
+        need.append("reader routes compared on the same file: %d" % stats.get("file.routes_compared"))
     if stats.get("files_with_masses_in_exponent_notation") < (5 if tier == "quick" else 500):
         need.append("files with masses in exponent notation: %d" % stats.get("files_with_masses_in_exponent_notation"))
     if stats.get("files_with_a_comment_behind_the_section_keywords") < (5 if tier == "quick" else 500):
